@@ -466,7 +466,7 @@ class Phase(Angle):
                 frac += 1
                 count -= 1
 
-            if frac < 0.25:
+            if frac < 0.25 and (precision is None or precision >= 2):
                 # Ensure that we do not get 1e-16, etc., yet can use numpy's
                 # guarantee that the right number of digits is shown.
                 frac_str = func(frac + 0.25)
@@ -482,7 +482,8 @@ class Phase(Angle):
                     f24 = "{:02d}".format(f24 - 25)
                 frac_str = frac_str[:2] + f24 + frac_str[4:]
             else:
-                frac_str = func(frac)
+                # abs() since frac can be -0.0, which would be formatted as "-0"
+                frac_str = func(abs(frac))
                 if frac_str[0] == "1":
                     count += 1
             s = sign + str(int(count)) + frac_str[1:]
